@@ -64,6 +64,20 @@ CHECKS = {
              "labellings and must equal the model exactly (decided in Coq), dense output must carry X's own index; the seven real detectors are run under every index kind.",
         note=BASE_TB + "Model/Convert.v hand-written (pandas IntervalIndex.get_indexer, diff, groupby are the platform). No axioms.",
         ref="DESIGN.md section 4 / C05"),
+    "C15": dict(
+        technique="Coq proof over Reals of the formulas REGENERATED from the source by the translator, Q model of np.quantile with exceedance bound, PELT penalty monotonicity corollary; correspondence on a parameter grid",
+        text="Theorems in coq/Properties/C15.v about the kernels regenerated from /repo on every run: default penalties/thresholds equal 2 p log n, 2 p sqrt(log n), 2 p log(n L); "
+             "CAPA's penalty = scale (k + 2 sqrt(k log n) + 2 log n), proportional to the scale, >= 0; dense = CAPA's penalty for p k parameters with zero betas; sparse = 2 log n + "
+             "2 log(k p) per component, times the scale; both non-negative and non-decreasing in the number of components; the combined family is the pointwise minimum of the three "
+             "cumulative sequences with non-negative betas, proportional to a common scale (intermediate sequence = SciPy oracle); tuned threshold (Q model of np.quantile) lies between "
+             "the neighbouring order statistics and at most N-1-floor((N-1)(1-level)) scores exceed it; the literal 'fraction level' claim is refuted (known finding D18); a larger penalty "
+             "never increases PELT's number of changepoints (from the C02 optimality theorems). Tie: every module-level penalty function and every fitted threshold_/penalty_ attribute is "
+             "compared on a grid with the translator's own IR and with the documented formula; tuned thresholds are checked against the Q model inside Coq on the detectors' own scores; "
+             "PELT monotonicity is run on exact table costs and real data.",
+        note=BASE_TB + "Axioms (Reals theorems only): ClassicalDedekindReals.sig_forall_dec, sig_not_dec, FunctionalExtensionality.functional_extensionality_dep, and Classical_Prop.classic "
+             "via the stdlib's ln. translator/py2coq.py and its role signatures are trusted, validated here by evaluating its IR against the real functions. scipy.stats.chi2 and "
+             "np.quantile are modelled/oracles, binary64 rounding is outside the theorems (rel. tolerance 1e-11).",
+        ref="DESIGN.md section 4 / C15"),
     "C13": dict(
         technique="Coq proof (characterisation of the accepted cuts) + exhaustive small-box correspondence against the real evaluate",
         text="Theorems in coq/Properties/C13.v: the model of evaluate's validation returns scores iff the argument is an integer array of "
